@@ -44,6 +44,9 @@ theorem lmax_run (a b : Int) : runFun2 (seqOf lmaxParts) a b = .ok (some (max a 
   · have : max a b = b := by omega
     xs [runFun2, lmaxParts, lmax0, lmax1, m0, h, this]
 
+theorem lnew_run (k : Nat) : runListNew (seqOf lnewParts) k = some (SimpleList.new k) := by
+  xs [runListNew, lnewParts, lnew0, listSt, m0, SimpleList.new]
+
 theorem lindex_run (s : SimpleList.St) : runListIndex (seqOf lindexParts) s = some s.index := by
   xs [runListIndex, lindexParts, lindex0, listM, m0]
 
